@@ -253,7 +253,7 @@ val py_kw :
 
 val readout_py : param list -> 'a1 option list -> (nat * 'a1 arg) list
 
-val missing_kwonly : param list -> 'a1 option list -> bool
+val missing_kwonly : nat -> param list -> 'a1 option list -> bool
 
 val bind_py : sig0 -> 'a1 call -> 'a1 outcome
 
